@@ -543,6 +543,9 @@ epoll_dispatch(struct event_base *base, struct timeval *tv)
 
 		if (what & EPOLLERR) {
 			ev = EV_READ | EV_WRITE;
+			/* an error does not make the peer's shutdown go away */
+			if (what & EPOLLRDHUP)
+				ev |= EV_CLOSED;
 		} else if ((what & EPOLLHUP) && !(what & EPOLLRDHUP)) {
 			ev = EV_READ | EV_WRITE;
 		} else {
